@@ -245,7 +245,7 @@ func Chunks[T any, Slice ~[]T](vs Slice, n int) []Slice {
 func Batches[T any, Slice ~[]T](vs Slice, n int) []Slice {
 	if n < 0 {
 		panic("n out of range")
-	} else if n == 0 {
+	} else if n == 0 || len(vs) == 0 {
 		return nil
 	} else if n > len(vs) {
 		n = len(vs)
